@@ -212,11 +212,16 @@ class SchemaValidationContext:
             return
 
         errors: list[tuple[GraphQLError, list[str | int]]] = []
-        validate_default_input(
-            default_input,
-            input_value.type,
-            lambda error, path: errors.append((error, path)),
-        )
+        try:
+            validate_default_input(
+                default_input,
+                input_value.type,
+                lambda error, path: errors.append((error, path)),
+            )
+        except TypeError:
+            # The default value reaches an input field whose type is not an input
+            # type. That field is reported separately, so the default is skipped.
+            return
 
         if not errors:
             return
